@@ -211,6 +211,8 @@ deriving DecidableEq, Repr
 structure St where
   log : List Call
   ignored : Bool            -- msg.tagged('ignored') is true
+  handler : Bool            -- the last reply came out of an `except` clause of `_callCommand`
+                            -- (replyError / the help text), not out of a command body
 
 inductive Stop where
   | error (s : Str)                                   -- an error message went to the user
@@ -230,25 +232,31 @@ deriving Repr
 def perform (cfg : EvCfg) (nested : Nat) (command : List Str) (a : Act) (st : St) : Outcome × St :=
   let st1 : St := if a.tag then { st with ignored := true } else st
   match a.b with
-  | .reply s => (.replied s, st1)
-  | .noReply => if nested = 0 then (.noReply, { st1 with ignored := true }) else (.noReply, st1)
+  | .reply s => (.replied s, { st1 with handler := false })
+  | .noReply =>
+    if nested = 0 then (.noReply, { st1 with ignored := true, handler := false })
+    else (.noReply, { st1 with handler := false })
   | .error s => (.stopped (.error s), st1)
   | .silent => (.stopped .silent, st1)
   | .raise .silent => (.stopped .silent, st1)
   | .raise (.error s) => (.stopped (.error s), st1)
-  | .raise .argument => (.replied (cfg.help command), st1)
+  | .raise .argument => (.replied (cfg.help command), { st1 with handler := true })
   | .raise (.other desc) =>
-    if cfg.detailed then (.stopped (.error desc), st1) else (.replied cfg.errorText, st1)
+    if cfg.detailed then (.stopped (.error desc), st1)
+    else (.replied cfg.errorText, { st1 with handler := true })
 
 /-- `finalEval` once every argument is a string -/
 def finalEval (cfg : EvCfg) (disp : List Str → Dispatch) (beh : Str → List Str → List Str → Act)
     (nested : Nat) (path : List Nat) (done : List Str) (st : St) : Outcome × St :=
   -- an exception inside finalEval (`args[0]` on the emptied list): it unwinds into the `_callCommand`
   -- of the sub-command whose noReply emptied the list; that one answers `replyError` on its own
-  -- (child) proxy, which truncates and hands the text to this proxy, now `finalEvaled`
+  -- (child) proxy, which truncates and hands the text to this proxy, now `finalEvaled`.  But when the
+  -- emptying reply was itself made from an `except` clause of that `_callCommand` (replyError, help),
+  -- nothing catches the exception before the firewall around `_callCommand`: logged, nothing sent.
   let crash : Outcome × St :=
-    if cfg.detailed then (.stopped (.error cfg.indexErrorText), st)
-    else (.replied (cfg.errorText.take cfg.maxLen), st)
+    if st.handler then (.stopped .silent, st)
+    else if cfg.detailed then (.stopped (.error cfg.indexErrorText), st)
+    else (.replied (cfg.errorText.take cfg.maxLen), { st with handler := true })
   match disp done with
   | .exc _ => crash
   | .none => (.stopped (.invalid done), st)
